@@ -288,7 +288,58 @@ func (g *skGen) stmtEvents(s ast.Stmt) []string {
 			return append(cond, "If "+coqList(g.stmtsEvents(cc.Body))+" "+coqList(build(i+1)))
 		}
 		return append(evs, build(0)...)
-	case *ast.BranchStmt, *ast.EmptyStmt, *ast.LabeledStmt:
+	case *ast.TypeSwitchStmt:
+		if v.Init != nil {
+			evs = append(evs, g.stmtEvents(v.Init)...)
+		}
+		evs = append(evs, g.stmtEvents(v.Assign)...)
+		var build func(i int) []string
+		clauses := v.Body.List
+		build = func(i int) []string {
+			if i >= len(clauses) {
+				return nil
+			}
+			cc := clauses[i].(*ast.CaseClause)
+			return []string{"If " + coqList(g.stmtsEvents(cc.Body)) + " " + coqList(build(i+1))}
+		}
+		return append(evs, build(0)...)
+	case *ast.SelectStmt:
+		// a select is a choice between its communication clauses; with a default clause the
+		// communications do not block: they are reported as calls "select.trysend" / "select.tryrecv"
+		hasDefault := false
+		for _, cl := range v.Body.List {
+			if cc, ok := cl.(*ast.CommClause); ok && cc.Comm == nil {
+				hasDefault = true
+			}
+		}
+		var build func(i int) []string
+		clauses := v.Body.List
+		build = func(i int) []string {
+			if i >= len(clauses) {
+				return nil
+			}
+			cc := clauses[i].(*ast.CommClause)
+			var comm []string
+			if cc.Comm != nil {
+				comm = g.stmtEvents(cc.Comm)
+				if hasDefault {
+					for k, e := range comm {
+						switch e {
+						case "Send":
+							comm[k] = "Call " + q("select.trysend")
+						case "Recv":
+							comm[k] = "Call " + q("select.tryrecv")
+						}
+					}
+				}
+			}
+			body := append(comm, g.stmtsEvents(cc.Body)...)
+			return []string{"If " + coqList(body) + " " + coqList(build(i+1))}
+		}
+		return append(evs, build(0)...)
+	case *ast.LabeledStmt:
+		return g.stmtEvents(v.Stmt)
+	case *ast.BranchStmt, *ast.EmptyStmt:
 		return nil
 	}
 	return evs
